@@ -87,6 +87,47 @@ def _validator_cases(ctx, stride):
     return out
 
 
+def _simple_cases(ctx, stride):
+    """User-defined simple types of spec/SimpleTypes.tla: two-level facet chains over xs:integer and unions
+    with overlapping member types, one value per document."""
+    import collections
+    from checks import c02
+    t = ctx.tlc("ST_Tables", cfg_text="SPECIFICATION Spec\nCHECK_DEADLOCK FALSE\n", workers=1,
+                constants={"MaxLen": 0, "Kinds": '{"decimal"}'}, tag="pool-simple")
+    tables = {x["table"]: x["rows"] for x in t.json_records()}
+    out = []
+    by = collections.defaultdict(list)
+    for row in tables["facets"]:
+        by[json.dumps([row["f1"], row["f2"]], sort_keys=True)].append(row)
+    for i, (k, rows) in enumerate(sorted(by.items())):
+        if i % stride:
+            continue
+        f1, f2 = json.loads(k)
+        xsd = (f'<xs:schema xmlns:xs="{cm.XS}"><xs:simpleType name="L1"><xs:restriction base="xs:integer">'
+               f'{c02.facet_xml(f1)}</xs:restriction></xs:simpleType><xs:simpleType name="L2">'
+               f'<xs:restriction base="L1">{c02.facet_xml(f2)}</xs:restriction></xs:simpleType>'
+               '<xs:element name="v" type="L2"/></xs:schema>')
+        if cm.build("1.0", xsd)[0] is None:
+            continue
+        for r in rows[::2]:
+            out.append({"origin": "simple", "xsds": [xsd], "xml": f"<v>{r['v']}</v>", "spec_valid": r["ok"],
+                        "about": f"facets {c02.facet_xml(f1)} / {c02.facet_xml(f2)} on {r['v']}"})
+    member = {"pos": "xs:positiveInteger", "bool": "xs:boolean", "int": "xs:integer", "ab": "AB"}
+    byu = collections.defaultdict(list)
+    for r in tables["unions"]:
+        byu[tuple(r["u"])].append(r)
+    for u, rows in sorted(byu.items()):
+        mt = " ".join(member[m] for m in u)
+        xsd = (f'<xs:schema xmlns:xs="{cm.XS}"><xs:simpleType name="AB"><xs:restriction base="xs:string">'
+               '<xs:enumeration value="a"/><xs:enumeration value="b"/></xs:restriction></xs:simpleType>'
+               f'<xs:simpleType name="U"><xs:union memberTypes="{mt}"/></xs:simpleType>'
+               '<xs:element name="v" type="U"/></xs:schema>')
+        for r in rows:
+            out.append({"origin": "simple", "xsds": [xsd], "xml": f"<v>{c02.esc(r['x'])}</v>",
+                        "spec_valid": r["val"] != "invalid", "about": f"union({mt}) on {r['x']!r}"})
+    return out
+
+
 def build_pool(ctx, scale=1):
     """-> list of cases; `scale` > 1 thins the pool out."""
     parts = ctx.parallel([
@@ -95,7 +136,8 @@ def build_pool(ctx, scale=1):
         lambda: _deriv_cases(ctx, 257 * scale),
         lambda: _ident_cases(ctx, 17 * scale),
         lambda: _validator_cases(ctx, 23 * scale),
-    ], width=5)
+        lambda: _simple_cases(ctx, 7 * scale),
+    ], width=6)
     pool = [c for p in parts for c in p]
     for i, c in enumerate(pool):
         c["id"] = i
